@@ -4,6 +4,7 @@ import JunoModel.C19.ProofsUnits
 import JunoModel.C19.ProofsValidator
 import JunoModel.C19.ProofsSched
 import JunoModel.C19.ProofsProc
+import JunoModel.C19.ProofsLive
 /-!
 C19 — property theorems (statements only; the proofs are one-line calls into `Proofs*.lean`).
 
@@ -487,6 +488,37 @@ theorem rejected_first_unit_suppresses_message_current [DecidableEq H] (cfg : Cf
     (first_invalid_unit_poisons_key cfg PCfg.current rfl f rs sg s p u sender e li hnew hnf hsi hkey hrej)
     i u' sender' hop hk
 
+/-- LIVENESS — the processor-level form of "the original message can be rebuilt bit-for-bit from
+any subset of shards meeting the threshold, whichever shards are missing" (with `localFromPresent`,
+proposed-fixes/C19-processor-local-unit-from-present.diff): for a receiver whose scheduler
+`NewScheduler` made, a publisher with a usable key, a processor that has not seen the message, and
+ANY `k` distinct shard indices in ANY order — the honest units with these indices, each from its
+designated sender (`Sched.sender`), make the processor
+* store the first `k-1` (`handled _ none none`: no build, no end),
+* build EXACTLY `msg` at the `k`-th,
+* and hand to `broadcastUnit`, over the whole run, exactly one unit: the publisher's unit for the
+  local shard index — whether or not that unit was among the `k` received.
+Signing is only assumed to round-trip (`SigOk`); the codec satisfies `RSLaws`. -/
+theorem processor_builds_from_k_honest_units [DecidableEq H] (pc : PCfg)
+    (hfix : pc.localFromPresent = true) (f : HashFns H) (rs : RS) (sg : SigScheme H)
+    (id : Bytes) (nodes : List Bytes) (s : Sched) (hs : newScheduler id nodes = .ok s)
+    (C P : Bytes) (hPm : P ∈ nodes) (hP : P ≠ id) (hkey : sg.hasKey P = true)
+    (nonce : Nat) (msg : Bytes) (hl : RSLaws rs s.k s.c) (hin : PadInput msg s.k)
+    (hok : rsNewOk s.k s.c = true) (hsmall : msg.length < 2 ^ 40)
+    (hsig : SigOk f rs sg s C P nonce msg) (p : Proc H)
+    (hfin : p.finalized.contains (hKey f rs s C P nonce msg) = false)
+    (hnone : p.findSub (hKey f rs s C P nonce msg) = none)
+    (idxs : List Nat) (hnd : idxs.Nodup) (hlt : ∀ i ∈ idxs, i < s.total) (hlen : idxs.length = s.k) :
+    ∃ li, s.shardIndexFor P = .ok li ∧ li < s.total ∧ ∃ pre bc e,
+      procRun Cfg.current pc f rs sg s p
+          (idxs.map (fun i => (honestUnit Cfg.current f rs sg C P nonce msg s.k s.c i, s.sender P i))) =
+        pre ++ [.handled bc (some msg) e] ∧
+      (∀ o ∈ pre, ∃ b, o = .handled b none none) ∧
+      (pre ++ [.handled bc (some msg) e]).flatMap ProcOut.bcast =
+        [honestUnit Cfg.current f rs sg C P nonce msg s.k s.c li] :=
+  procRun_builds_from_honest_units f rs sg s C P nonce msg pc hfix id nodes hs hPm hP hkey hl hin hok
+    hsmall hsig p hfin hnone idxs hnd hlt hlen
+
 /-- `processor_total` (a2bceaf, 32710c6 in place; with `localFromPresent` and `keyGuard`,
 proposed-fixes/C19-processor-local-unit-from-present.diff and
 C19-processor-publisher-key-check.diff): for a receiver whose scheduler `NewScheduler` made, in
@@ -503,22 +535,30 @@ theorem processor_total [DecidableEq H] (pc : PCfg) (f : HashFns H) (rs : RS)
    `processor-panics-filling-local-unit-when-shard0-not-received`,
    `receiver-panics-on-publisher-without-embedded-key`): -/
 
-/-- Negation 1 for the code in /repo (`localFromPresent = false`), for ALL messages: when the unit
-that completes the build threshold is accepted, the build succeeds, the local shard has not been
-forwarded and slot 0 is empty, the subprocessor panics (nil dereference of `unitsReceived[0]`) — in
-a goroutine of its own, which takes the node down. -/
-theorem processor_panics_without_shard0_current [DecidableEq H] (cfg : Cfg)
-    (f : HashFns H) (rs : RS) (sg : SigScheme H) (s : Sched)
-    (publisher : Bytes) (li : Nat) (st : SubState H) (u : PUnit H) (sender : Bytes) (v' : VState)
-    (r : Bytes × Bytes × List H)
-    (hstage : st.built = none) (hv : validate cfg f sg s publisher st.v u sender = .ok v')
-    (hk : st.count + 1 = s.k)
-    (hc : construct cfg f rs (st.units.set u.index (some u)) li s.k s.c = .ok r)
-    (hnot : st.localSent = false) (hli : li ≠ u.index)
-    (h0 : (st.units.set u.index (some u)).headD none = none) :
-    subStep cfg PCfg.current f rs sg s publisher li st u sender = .panic :=
-  subStep_panics_filling_local_unit_pinned cfg PCfg.current rfl f rs sg s publisher li st u sender v' r
-    hstage hv hk hc hnot hli h0
+/-- Negation 1 for the code in /repo (`localFromPresent = false`), for ALL messages and every
+committee: `k` distinct honest units of one message, each from its designated sender, in any
+order, handed to a processor that has not seen the message — when neither shard 0 nor the local
+shard is among them, the first `k-1` are stored and the `k`-th PANICS the processor (nil
+dereference of `unitsReceived[0]` in the subprocessor's goroutine: the node dies). The honest
+units alone do it; no forged input is needed. (Instance below: a committee of 4.) -/
+theorem processor_panics_without_shard0_current [DecidableEq H]
+    (f : HashFns H) (rs : RS) (sg : SigScheme H)
+    (id : Bytes) (nodes : List Bytes) (s : Sched) (hs : newScheduler id nodes = .ok s)
+    (C P : Bytes) (hPm : P ∈ nodes) (hP : P ≠ id) (hkey : sg.hasKey P = true)
+    (nonce : Nat) (msg : Bytes) (hl : RSLaws rs s.k s.c) (hin : PadInput msg s.k)
+    (hok : rsNewOk s.k s.c = true) (hsmall : msg.length < 2 ^ 40)
+    (hsig : SigOk f rs sg s C P nonce msg) (p : Proc H)
+    (hfin : p.finalized.contains (hKey f rs s C P nonce msg) = false)
+    (hnone : p.findSub (hKey f rs s C P nonce msg) = none)
+    (idxs : List Nat) (hnd : idxs.Nodup) (hlt : ∀ i ∈ idxs, i < s.total) (hlen : idxs.length = s.k)
+    (li : Nat) (hshard : s.shardIndexFor P = .ok li) (h0 : 0 ∉ idxs) (hloc : li ∉ idxs) :
+    ∃ pre,
+      procRun Cfg.current PCfg.current f rs sg s p
+          (idxs.map (fun i => (honestUnit Cfg.current f rs sg C P nonce msg s.k s.c i, s.sender P i))) =
+        pre ++ [.panic] ∧
+      (∀ o ∈ pre, o = .handled [] none none) :=
+  procRun_panics_on_honest_units f rs sg s C P nonce msg PCfg.current rfl id nodes hs hPm hP hkey hl hin
+    hok hsmall hsig p hfin hnone idxs hnd hlt hlen li hshard h0 hloc
 
 /-- Negation 2 for the code in /repo (`keyGuard = false`): ANY unit that names as publisher a
 committee member whose peer id does not embed a public key (RSA, ECDSA), for a message key the node
@@ -631,6 +671,7 @@ example : RSLaws trivialCode 1 0 := trivialCode_laws
 example : RSLaws repCode11 1 1 := repCode11_laws
 -- a codec with two data shards (XOR parity): the hypotheses are satisfiable beyond k = 1
 example : RSLaws xorCode21 2 1 := xorCode21_laws
+example : RSLaws repCode12 1 2 := repCode12_laws
 example : PadInput [1, 2, 3] 3 := by unfold PadInput; decide
 example : rsNewOk 3 6 = true := by decide
 example : RoutesOk (⟨fun _ => [1], fun _ _ _ => true, fun _ => true⟩ : SigScheme HTerm) [] := routesOk_nil _
@@ -649,5 +690,46 @@ example : Cfg.pinned.rootFromPresent = false ∧ Cfg.pinned.shardingLeafProto = 
 -- a value on which unpad succeeds, one on which it errs
 example : unpad false [3, 1, 2, 3, 0, 0] = .ok [1, 2, 3] ∧ unpad true [9, 1] = .err .length ∧
     unpad true [0x80] = .err .varint := by decide
+
+/-! ### Non-vacuity of the processor theorems: a run that builds, a run that panics -/
+
+/-- A signature scheme for the examples: every signature is `[1]` and verifies. -/
+def toySig : SigScheme HTerm := ⟨fun _ => [1], fun _ _ _ => true, fun _ => true⟩
+/-- The receiver `[1]` in the committee `{[1],[2],[3]}` (k = 1, one coding shard). -/
+def sched3 : Sched := ⟨[1], 0, [[1], [2], [3]], 1, 1⟩
+/-- The receiver `[1]` in the committee `{[1],[2],[3],[4]}` (k = 1, two coding shards). -/
+def sched4 : Sched := ⟨[1], 0, [[1], [2], [3], [4]], 1, 2⟩
+
+/-- A run that builds: committee of 3, publisher `[2]`, the receiver's local shard index is 0, it
+receives only unit 1 (from `[3]`): the message `hi` is built and unit 0 is broadcast. -/
+example : ∃ li pre bc e, sched3.shardIndexFor [2] = .ok li ∧
+    procRun Cfg.current PCfg.repaired termFns repCode11 toySig sched3 Proc.empty
+      [(honestUnit Cfg.current termFns repCode11 toySig [7] [2] 5 [104, 105] 1 1 1, sched3.sender [2] 1)] =
+      pre ++ [.handled bc (some [104, 105]) e] ∧
+    (pre ++ [.handled bc (some [104, 105]) e]).flatMap ProcOut.bcast =
+      [honestUnit Cfg.current termFns repCode11 toySig [7] [2] 5 [104, 105] 1 1 li] := by
+  obtain ⟨li, h1, _, pre, bc, e, h2, _, h3⟩ :=
+    processor_builds_from_k_honest_units PCfg.repaired rfl termFns repCode11 toySig [1] [[3], [1], [2]]
+      sched3 rfl [7] [2] (by decide) (by decide) rfl 5 [104, 105] repCode11_laws
+      (by unfold PadInput; decide) (by decide) (by decide) ⟨by decide, rfl⟩ Proc.empty rfl rfl
+      [1] (by decide) (by decide) rfl
+  exact ⟨li, pre, bc, e, h1, h2, h3⟩
+
+/-- The same on the code in /repo with a committee of 4: the receiver's local index is 0, the only
+unit it receives is unit 2 — `k = 1` honest unit from its designated sender — and the processor
+panics. -/
+example : procRun Cfg.current PCfg.current termFns repCode12 toySig sched4 Proc.empty
+      [(honestUnit Cfg.current termFns repCode12 toySig [7] [2] 5 [104, 105] 1 2 2, sched4.sender [2] 2)] =
+      [.panic] := by
+  obtain ⟨pre, h, _⟩ :=
+    processor_panics_without_shard0_current termFns repCode12 toySig [1] [[3], [1], [2], [4]]
+      sched4 rfl [7] [2] (by decide) (by decide) rfl 5 [104, 105] repCode12_laws
+      (by unfold PadInput; decide) (by decide) (by decide) ⟨by decide, rfl⟩ Proc.empty rfl rfl
+      [2] (by decide) (by decide) rfl 0 rfl (by decide) (by decide)
+  cases pre with
+  | nil => exact h
+  | cons a t =>
+    have := congrArg List.length h
+    simp [procRun] at this
 
 end Juno.C19.Props
